@@ -73,6 +73,7 @@ def main():
         with open(a.replay) as f:
             rp = json.load(f)
         cases = [rp["case"]]
+        replay_ctx = [rp.get("process_index", 0)]
     else:
         cases = mod.cases(tier, seed)
         if a.subset:
@@ -103,7 +104,7 @@ def main():
     if not a.replay and not a.subset:
         chains = _chains(cases, tier, getattr(mod, "CHAIN", {"quick": 6, "thorough": 60}))
     results = runner.run_cases(cases, run_any, timeout=timeout, quiet=not a.verbose,
-                               progress=prog)
+                               progress=prog, indices=replay_ctx if a.replay else None)
     if chains:
         results += runner.run_cases(chains, run_any, timeout=3 * timeout, quiet=not a.verbose, progress=prog)
         cases = list(cases) + chains
@@ -115,7 +116,7 @@ def main():
     for case, r in zip(cases, results):
         if r is None or r.get("timeout"):
             timeouts += 1
-            incs.append({"reason": "watchdog", "case": case})
+            incs.append({"reason": "watchdog" + (": " + " | ".join(l.strip() for l in r["stack"].splitlines() if l.strip().startswith("File"))[:600] if r and r.get("stack") else ""), "case": case})
             continue
         rec = r.get("rec")
         if r.get("error"):
@@ -133,6 +134,7 @@ def main():
                 samples.append(s)
         for v in rec["violations"]:
             v["case"] = case
+            v["process_index"] = r.get("ctx", r.get("i", 0))
             viols.append(v)
         for inc in rec["inconclusive"]:
             inc["case"] = case
@@ -166,6 +168,7 @@ def main():
             with open(p, "w") as f:
                 json.dump({"property": pid, "case": v["case"], "what": v["what"],
                            "mech": v.get("mech"), "witness": v.get("witness"),
+                           "process_index": v.get("process_index", 0),
                            "python_O": bool(sys.flags.optimize)}, f, indent=1,
                           default=str)
             replay_paths.append((p, v["what"]))
